@@ -29,6 +29,14 @@ def evaluate(case):
         res.label("raised")
         return res
     E.check_c06(res, cits, out)
+    if "seq" in case:
+        # writer-based: which full-citation letters denote the same case is known from what was written
+        exp = E.abstract_resolution(case["seq"])
+        got = E.groups_as_indices(cits, out)
+        fulls = {i for i, l in enumerate(case["seq"]) if l in E.CASE_OF or l in E.IDENTITY_FULL or l in E.OTHER_FULL}
+        part = lambda gs: sorted(sorted(i for i in g if i in fulls) for g in gs if any(i in fulls for i in g))
+        if part(exp) != part(got):
+            res.v("abstract:full-citations-grouped-differently", f"{case['seq']}: implementation {part(got)}, written meaning {part(exp)}")
     return res
 
 
